@@ -150,7 +150,9 @@ void density_sketch<T, K, A>::compact_level(unsigned height) {
     for (unsigned j = 0; j < i; ++j) {
       delta += (bits[j] ? 1 : -1) * kernel_(level[i], level[j]);
     }
-    bits[i] = delta < 0;
+    // a tie (e.g. all kernel values underflow to zero or the kernel has compact support) alternates,
+    // so that such a level keeps about half of its points instead of discarding all of them
+    bits[i] = (delta < 0) || (delta == 0 && !bits[i - 1]);
   }
   for (unsigned i = 0; i < level.size(); ++i) {
     if (bits[i]) {
